@@ -99,7 +99,12 @@ func (r *DecoratorResolver) imports(file *ast.File) (map[string]string, error) {
 			}
 			return true
 		case *ast.ImportSpec:
-			path := mustUnquote(node.Path.Value)
+			path, err := strconv.Unquote(node.Path.Value)
+			if err != nil {
+				// A file with syntax errors can have an import spec without a valid path
+				outer = fmt.Errorf("goast.DecoratorResolver found invalid import path %s: %w", node.Path.Value, err)
+				return false
+			}
 			if path == "C" {
 				return false
 			}
@@ -138,12 +143,4 @@ func (r *DecoratorResolver) imports(file *ast.File) (map[string]string, error) {
 	r.files[file] = imports
 
 	return imports, nil
-}
-
-func mustUnquote(s string) string {
-	out, err := strconv.Unquote(s)
-	if err != nil {
-		panic(err)
-	}
-	return out
 }
